@@ -45,6 +45,10 @@ class Hang(Exception):
     """A wait of the controller timed out (observable, not a harness hang)."""
 
 
+class EarlyExit(Exception):
+    """serve() of a connection returned although its client is still connected and has not finished its script."""
+
+
 class Gauge:
     """Connections currently inside RpcServer.serve, with the order of enter / exit events."""
 
@@ -293,6 +297,7 @@ def run_case(handle: ServerHandle, scripts: list[list[list[Any]]], rng: Any, tag
     maxc = handle.maxc
     n = len(scripts)
     anomalies: list[str] = []
+    probes: dict[int, Any] = {}
     if not g.wait_for(lambda: not g.active, STEP_TIMEOUT):
         anomalies.append("gauge-not-idle-at-case-start")
     with g.cond:
@@ -316,6 +321,10 @@ def run_case(handle: ServerHandle, scripts: list[list[list[Any]]], rng: Any, tag
         # mark is reported separately and must agree with it
         schedule.append(i)
         served.append(sum(1 for p in phase if p == "serving"))
+        with g.cond:
+            gone = [j for j in range(n) if phase[j] == "serving" and ("exit", clients[j].key) in g.events]
+        if gone:
+            raise EarlyExit(f"connection {gone[0]}: serve() returned while its client was still connected (after {clients[gone[0]].steps_done} client steps)")
 
     def full() -> bool:
         with g.cond:
@@ -411,8 +420,22 @@ def run_case(handle: ServerHandle, scripts: list[list[list[Any]]], rng: Any, tag
                 raise Hang(f"connection {i}: client step {c.steps_done} did not return although the connection is being served")
             after_step(i)
             hand_over()
+    except EarlyExit as e:
+        anomalies.append(f"serve-ended-before-client-disconnected: {e}")
     except Hang as e:
         anomalies.append(f"hang: {e}")
+        # what do the clients of the unfinished connections see now?  (a connection whose accepted socket was lost or
+        # handed to the wrong handler answers with EOF / reset instead of its results)
+        for c in clients:
+            if c.transport is None or c.finished():
+                continue
+            if not c.pending:
+                c.release()
+            if c.wait(min(STEP_TIMEOUT, 10.0)):
+                c.pending = False
+                probes[c.cid] = [list(t) for t in c.traces] + ([list(c.cur)] if c.cur else [])
+            else:
+                probes[c.cid] = "no answer"
     finally:
         for c in clients:
             c.quit()
@@ -441,5 +464,6 @@ def run_case(handle: ServerHandle, scripts: list[list[list[Any]]], rng: Any, tag
         "hw": hw,
         "phases": phase,
         "gauge_events": gl,
+        "probes": probes,
         "anomalies": anomalies,
     }
